@@ -340,6 +340,12 @@ ARR_VALS = {"int": [[], [7], [3, -1, 2147483647]], "double": [[], [-1.5], [0.0, 
             "long": [[], [5], [1, -2, 3]], "float": [[], [1.5], [0.5, -2.0, 4.0]]}
 
 
+for _tn, _t in NATIVE.items():
+    if _tn not in ARR_VALS:
+        # three elements: small, the type's last boundary value, small (an element of the wrong width shifts its neighbours)
+        ARR_VALS[_tn] = [[], [_t.vals[1]], [_t.vals[1], _t.vals[-1] if _t.cls != "int" or len(_t.vals) <= 3 else _t.vals[-2], _t.vals[0]]]
+
+
 class Arr(Atom):
     """A6: array with rank(1) and an implied size argument; intent in / inout."""
 
